@@ -100,7 +100,7 @@ func randEncodeStep(r *plan.Rng, faulty bool) plan.Step {
 		st.N = []int{300, 1200, 2500, 5000, 9000, 20000}[r.Intn(6)] + r.Intn(300)
 	}
 	if faulty && r.Chance(1, 25) {
-		st.T = "Unsupported"
+		st.T = []string{"Unsupported", "Unsupported2", "Unsupported3", "Unsupported4"}[r.Intn(4)]
 	}
 	if faulty && r.Chance(1, 25) {
 		st.Opts = append(st.Opts, "cyclic")
